@@ -27,6 +27,7 @@ KEY_N1 = "connect-when-state-kConnected"
 KEY_N4 = "connect-while-resetChannel-queued"
 KEY_N2 = "destroy-with-connection-while-connector-functor-queued"
 KEY_F13 = "foreign-destroy-races-loop-thread"
+KEY_REL = "user-releases-last-reference-of-live-connection"
 
 
 def lst(x):
@@ -114,6 +115,9 @@ def oracle(case, lines):
                 sig(KEY_N2, i)
             if k in ("XYR", "EVWY") and not destroyed and not dying:
                 sig(KEY_F13, i)
+            if k == "REL" and destroyed and user not in (None, "-") and prev is not None and int(user) < len(prev.cs) and \
+                    prev.cs[int(user)].split("/")[0] in ("2", "3"):
+                sig(KEY_REL, i)
         if ln.startswith("crashed"):
             fail(i, "crash", "op %d (%s): %s" % (i, op, ln))
             break
@@ -352,7 +356,7 @@ def known_key_for(fails, sigs, release=False):
     prio = {KEY_N2: 2, KEY_F13: 1}
     allowed = []
     if kind == "crash":
-        allowed = [KEY_F13, KEY_N2, KEY_F10A, KEY_N1, KEY_N4]
+        allowed = [KEY_F13, KEY_N2, KEY_F10A, KEY_N1, KEY_N4, KEY_REL]
     elif kind in ("backoff", "attempt"):
         allowed = [KEY_F10A, KEY_F10B, KEY_F13]
     elif kind in ("up", "down", "retry-policy", "stop", "destroy"):
